@@ -1,7 +1,7 @@
 #!/bin/sh
 # run_all.sh <tier> [ids...] : run every registered check on /repo as it is and summarise
 tier="${1:-quick}"; shift
-cd /verif
+cd "$(dirname "$0")/.."
 ids="$@"
 [ -n "$ids" ] || ids=$(python3 -c "import json; print(' '.join(c['property_id'] for c in json.load(open('MANIFEST.json'))['checks']))")
 for id in $ids; do
